@@ -1,4 +1,5 @@
 #include "plangen.h"
+#include <algorithm>
 
 int
 pick_violation(Rng &r, const JobSpec &s)
@@ -115,6 +116,16 @@ profile_by_name(const std::string &name, const std::string &prop, int tier)
                                 su.order = d == 1 ? IMB_ORDER_HASH_CIPHER : IMB_ORDER_CIPHER_HASH;
                                 p.fixed_suites.push_back(su);
                         }
+        } else if (name == "keyprep") { // C11
+                p.oracles = OR_FIFO | OR_REF;
+                p.max_ops = 60;
+                p.max_len = 400;
+        } else if (name == "entry") { // C09
+                p.oracles = OR_FIFO | OR_DESC | OR_MEM | OR_REF;
+                p.max_len = 1500;
+        } else if (name == "sgl") { // C10
+                p.oracles = OR_FIFO | OR_DESC | OR_SOLO | OR_REF;
+                p.max_len = 600;
         } else if (name == "indep") { // C17 L1
                 p.oracles = OR_FIFO | OR_DESC;
                 p.ntasks = 3;
@@ -262,5 +273,330 @@ gen_plan(const ProfileCfg &pc, uint64_t run_seed)
                         }
                 }
         }
+        return p;
+}
+
+// ------------------------------------------------------------------ C09: entry points
+namespace {
+enum { // must match DirectFn in ops_ext.inc
+        D_GCM_ONESHOT = 1, D_GCM_IUF, D_GMAC_IUF, D_GHASH, D_SHA_ONESHOT, D_CRC, D_ZUC_EEA3_1, D_ZUC_EEA3_4, D_ZUC_EEA3_N,
+        D_ZUC_EIA3_1, D_ZUC_EIA3_N, D_SNOW3G_F8_1, D_SNOW3G_F8_1_BIT, D_SNOW3G_F8_2, D_SNOW3G_F8_4, D_SNOW3G_F8_8, D_SNOW3G_F8_N,
+        D_SNOW3G_F8_8_MK, D_SNOW3G_F8_N_MK, D_SNOW3G_F9_1, D_KASUMI_F8_1, D_KASUMI_F8_1_BIT, D_KASUMI_F8_2, D_KASUMI_F8_3,
+        D_KASUMI_F8_4, D_KASUMI_F8_N, D_KASUMI_F9_1, D_CHACHAPOLY_IUF, D_NFN
+};
+uint32_t
+burst_size(Rng &r)
+{
+        uint32_t y = r.below(20);
+        return y < 4 ? 1 : y < 11 ? r.range(2, 8) : y < 15 ? r.range(9, 20) : y < 18 ? r.range(21, 64) : y < 19 ? r.range(65, 127) : 128;
+}
+} // namespace
+
+Plan
+gen_plan_entry(const ProfileCfg &pc, uint64_t run_seed)
+{
+        Rng r(run_seed);
+        Plan p;
+        p.seed = run_seed;
+        p.profile = pc.name;
+        p.prop = pc.prop;
+        p.oracles = pc.oracles;
+        p.task_cfg.push_back(pc.force_cfg >= 0 ? pc.force_cfg : (int) r.below(NCFG));
+        GenOpts go;
+        go.len_profile = (int) r.below(LEN_NPROF);
+        go.max_len = r.chance(0.1) ? 20000 : pc.max_len;
+        if (go.max_len <= 4096 && (go.len_profile == LEN_4K || go.len_profile == LEN_MAX))
+                go.len_profile = LEN_MIXED;
+        go.offsets = false;
+        go.guard = pc.guard;
+        uint32_t nops = r.range(3, 25);
+        uint64_t total = 0;
+        for (uint32_t i = 0; i < nops && total < (2u << 20); i++) {
+                Op op;
+                uint32_t x = r.below(100);
+                Suite s;
+                if (x < 45) {
+                        op.kind = OP_SYNC_BURST;
+                        op.nocheck = r.chance(0.4);
+                        uint32_t y = r.below(10);
+                        op.a = y < 5 ? 0 : y < 9 ? 1 : 2;
+                        if (op.a == 0) {
+                                static const int cs[] = { IMB_CIPHER_CBC, IMB_CIPHER_CNTR, IMB_CIPHER_ECB, IMB_CIPHER_CFB };
+                                s.cipher = (uint8_t) cs[r.below(4)];
+                                s.key_len = (uint16_t) r.pick(cipher_key_lens(s.cipher));
+                                s.dir = r.chance(0.5) ? IMB_DIR_ENCRYPT : IMB_DIR_DECRYPT;
+                        } else if (op.a == 1) {
+                                static const int hs[] = { IMB_AUTH_HMAC_SHA_1, IMB_AUTH_HMAC_SHA_224, IMB_AUTH_HMAC_SHA_256,
+                                                          IMB_AUTH_HMAC_SHA_384, IMB_AUTH_HMAC_SHA_512, IMB_AUTH_SHA_1,
+                                                          IMB_AUTH_SHA_224, IMB_AUTH_SHA_256, IMB_AUTH_SHA_384, IMB_AUTH_SHA_512,
+                                                          IMB_AUTH_AES_CMAC, IMB_AUTH_AES_CMAC_BITLEN, IMB_AUTH_AES_CMAC_256 };
+                                s.hash = (uint8_t) hs[r.below(13)];
+                                s.order = IMB_ORDER_HASH_CIPHER;
+                        } else {
+                                s.cipher = IMB_CIPHER_CCM;
+                                s.hash = IMB_AUTH_AES_CCM;
+                                s.key_len = r.chance(0.5) ? 16 : 32;
+                                s.dir = r.chance(0.5) ? IMB_DIR_ENCRYPT : IMB_DIR_DECRYPT;
+                                s.order = s.dir == IMB_DIR_ENCRYPT ? IMB_ORDER_HASH_CIPHER : IMB_ORDER_CIPHER_HASH;
+                        }
+                        uint32_t n = burst_size(r);
+                        if (go.max_len > 8192 && n > 8)
+                                n = 8;
+                        for (uint32_t k = 0; k < n; k++)
+                                op.jobs.push_back(gen_job(r, s, go));
+                } else {
+                        op.kind = OP_DIRECT;
+                        op.a = (int) r.range(1, D_NFN - 1);
+                        op.b = (int) r.below(1000000);
+                        uint32_t n = 1;
+                        bool same_key = true, same_len = false, byte_len = false;
+                        switch (op.a) {
+                        case D_GCM_ONESHOT:
+                        case D_GCM_IUF:
+                                s.cipher = IMB_CIPHER_GCM;
+                                s.hash = IMB_AUTH_AES_GMAC;
+                                s.key_len = (uint16_t) r.pick(cipher_key_lens(IMB_CIPHER_GCM));
+                                s.dir = r.chance(0.5) ? IMB_DIR_ENCRYPT : IMB_DIR_DECRYPT;
+                                s.order = s.dir == IMB_DIR_ENCRYPT ? IMB_ORDER_CIPHER_HASH : IMB_ORDER_HASH_CIPHER;
+                                break;
+                        case D_GMAC_IUF: {
+                                static const int g[] = { IMB_AUTH_AES_GMAC_128, IMB_AUTH_AES_GMAC_192, IMB_AUTH_AES_GMAC_256 };
+                                s.hash = (uint8_t) g[r.below(3)];
+                                s.order = IMB_ORDER_HASH_CIPHER;
+                                break;
+                        }
+                        case D_GHASH: s.hash = IMB_AUTH_GHASH; s.order = IMB_ORDER_HASH_CIPHER; break;
+                        case D_SHA_ONESHOT: {
+                                static const int g[] = { IMB_AUTH_SHA_1, IMB_AUTH_SHA_224, IMB_AUTH_SHA_256, IMB_AUTH_SHA_384,
+                                                         IMB_AUTH_SHA_512 };
+                                s.hash = (uint8_t) g[r.below(5)];
+                                s.order = IMB_ORDER_HASH_CIPHER;
+                                break;
+                        }
+                        case D_CRC: {
+                                static const int g[] = { IMB_AUTH_CRC32_ETHERNET_FCS, IMB_AUTH_CRC16_X25, IMB_AUTH_CRC32_SCTP,
+                                                         IMB_AUTH_CRC24_LTE_A, IMB_AUTH_CRC24_LTE_B, IMB_AUTH_CRC16_FP_DATA,
+                                                         IMB_AUTH_CRC11_FP_HEADER, IMB_AUTH_CRC7_FP_HEADER, IMB_AUTH_CRC10_IUUP_DATA,
+                                                         IMB_AUTH_CRC6_IUUP_HEADER, IMB_AUTH_CRC32_WIMAX_OFDMA_DATA,
+                                                         IMB_AUTH_CRC8_WIMAX_OFDMA_HCS };
+                                s.hash = (uint8_t) g[r.below(12)];
+                                s.order = IMB_ORDER_HASH_CIPHER;
+                                break;
+                        }
+                        case D_ZUC_EEA3_1:
+                        case D_ZUC_EEA3_4:
+                        case D_ZUC_EEA3_N:
+                                s.cipher = IMB_CIPHER_ZUC_EEA3;
+                                s.key_len = 16;
+                                same_key = false;
+                                n = op.a == D_ZUC_EEA3_1 ? 1 : op.a == D_ZUC_EEA3_4 ? 4 : r.range(1, 20);
+                                break;
+                        case D_ZUC_EIA3_1:
+                        case D_ZUC_EIA3_N:
+                                s.hash = IMB_AUTH_ZUC_EIA3_BITLEN;
+                                s.order = IMB_ORDER_HASH_CIPHER;
+                                same_key = false;
+                                n = op.a == D_ZUC_EIA3_1 ? 1 : r.range(1, 20);
+                                break;
+                        case D_SNOW3G_F8_1:
+                        case D_SNOW3G_F8_1_BIT:
+                        case D_SNOW3G_F8_2:
+                        case D_SNOW3G_F8_4:
+                        case D_SNOW3G_F8_8:
+                        case D_SNOW3G_F8_N:
+                        case D_SNOW3G_F8_8_MK:
+                        case D_SNOW3G_F8_N_MK:
+                                s.cipher = IMB_CIPHER_SNOW3G_UEA2_BITLEN;
+                                s.key_len = 16;
+                                byte_len = op.a != D_SNOW3G_F8_1_BIT;
+                                same_key = !(op.a == D_SNOW3G_F8_8_MK || op.a == D_SNOW3G_F8_N_MK);
+                                n = op.a == D_SNOW3G_F8_2 ? 2 : op.a == D_SNOW3G_F8_4 ? 4 : (op.a == D_SNOW3G_F8_8 || op.a == D_SNOW3G_F8_8_MK) ? 8
+                                    : (op.a == D_SNOW3G_F8_N || op.a == D_SNOW3G_F8_N_MK) ? r.range(1, 16) : 1;
+                                break;
+                        case D_SNOW3G_F9_1: s.hash = IMB_AUTH_SNOW3G_UIA2_BITLEN; s.order = IMB_ORDER_HASH_CIPHER; break;
+                        case D_KASUMI_F8_1:
+                        case D_KASUMI_F8_1_BIT:
+                        case D_KASUMI_F8_2:
+                        case D_KASUMI_F8_3:
+                        case D_KASUMI_F8_4:
+                        case D_KASUMI_F8_N:
+                                s.cipher = IMB_CIPHER_KASUMI_UEA1_BITLEN;
+                                s.key_len = 16;
+                                byte_len = op.a != D_KASUMI_F8_1_BIT;
+                                same_len = op.a == D_KASUMI_F8_3 || op.a == D_KASUMI_F8_4;
+                                n = op.a == D_KASUMI_F8_2 ? 2 : op.a == D_KASUMI_F8_3 ? 3 : op.a == D_KASUMI_F8_4 ? 4
+                                    : op.a == D_KASUMI_F8_N ? r.range(1, 16) : 1;
+                                break;
+                        case D_KASUMI_F9_1: s.hash = IMB_AUTH_KASUMI_UIA1; s.order = IMB_ORDER_HASH_CIPHER; break;
+                        case D_CHACHAPOLY_IUF:
+                                s.cipher = IMB_CIPHER_CHACHA20_POLY1305;
+                                s.hash = IMB_AUTH_CHACHA20_POLY1305;
+                                s.key_len = 32;
+                                s.dir = r.chance(0.5) ? IMB_DIR_ENCRYPT : IMB_DIR_DECRYPT;
+                                s.order = s.dir == IMB_DIR_ENCRYPT ? IMB_ORDER_CIPHER_HASH : IMB_ORDER_HASH_CIPHER;
+                                break;
+                        }
+                        GenOpts g2 = go;
+                        if (op.a == D_SNOW3G_F8_1_BIT || op.a == D_KASUMI_F8_1_BIT)
+                                g2.offsets = true; // bit offsets are part of these entry points
+                        for (uint32_t k = 0; k < n; k++) {
+                                JobSpec j = gen_job(r, s, g2);
+                                if (byte_len) {
+                                        j.c_off = 0;
+                                        j.c_len = (j.c_len + 7) & ~7u;
+                                        if (s.cipher == IMB_CIPHER_KASUMI_UEA1_BITLEN && j.c_len > 19992)
+                                                j.c_len = 19992;
+                                }
+                                if ((op.a == D_SNOW3G_F8_1_BIT || op.a == D_KASUMI_F8_1_BIT) && !spec_bitpath(j))
+                                        j.c_len |= 1; // the bit-granular entry point: offset applies to source and destination
+                                if (op.a == D_GCM_ONESHOT)
+                                        j.iv_len = 12;
+                                if (k > 0 && same_key)
+                                        j.key_seed = op.jobs[0].key_seed;
+                                if (k > 0 && same_len)
+                                        j.c_len = op.jobs[0].c_len;
+                                if (s.hash == IMB_AUTH_GHASH || op.a == D_GHASH)
+                                        j.aiv_len = 16;
+                                op.jobs.push_back(j);
+                        }
+                }
+                for (auto &j : op.jobs)
+                        total += spec_src_bytes(j);
+                p.ops.push_back(op);
+        }
+        return p;
+}
+
+// ------------------------------------------------------------------ C10: SGL streams
+Plan
+gen_plan_sgl(const ProfileCfg &pc, uint64_t run_seed)
+{
+        Rng r(run_seed);
+        Plan p;
+        p.seed = run_seed;
+        p.profile = pc.name;
+        p.prop = pc.prop;
+        p.oracles = pc.oracles;
+        p.task_cfg.push_back(pc.force_cfg >= 0 ? pc.force_cfg : (int) r.below(NCFG));
+        p.warmup = r.chance(0.5) ? 0 : r.below(256);
+        GenOpts go;
+        go.len_profile = LEN_MIXED;
+        go.max_len = pc.max_len;
+        go.offsets = false;
+        uint32_t nstreams = r.range(1, 4);
+        std::vector<uint32_t> remaining;
+        for (uint32_t i = 0; i < nstreams; i++) {
+                SglStream st;
+                Suite s;
+                s.cipher = r.chance(0.5) ? IMB_CIPHER_GCM_SGL : IMB_CIPHER_CHACHA20_POLY1305_SGL;
+                s.hash = (uint8_t) aead_hash_for(s.cipher);
+                s.key_len = s.cipher == IMB_CIPHER_GCM_SGL ? (uint16_t) r.pick(cipher_key_lens(IMB_CIPHER_GCM)) : 32;
+                s.dir = r.chance(0.5) ? IMB_DIR_ENCRYPT : IMB_DIR_DECRYPT;
+                s.order = s.dir == IMB_DIR_ENCRYPT ? IMB_ORDER_CIPHER_HASH : IMB_ORDER_HASH_CIPHER;
+                st.base = gen_job(r, s, go);
+                st.base.c_off = st.base.h_off = 0;
+                st.base.inplace = r.chance(0.5);
+                uint32_t total = st.base.c_len;
+                // ordered partition into k segments, zero-length segments and cuts inside blocks included
+                uint32_t k = r.chance(0.3) ? r.range(1, 3) : r.range(2, 12);
+                std::vector<uint32_t> cuts;
+                for (uint32_t c = 0; c + 1 < k; c++) {
+                        uint32_t x = r.below(10);
+                        uint32_t cut = x < 5 ? r.below(total + 1) : x < 8 ? (total ? (r.below(total + 1) & ~15u) + r.below(3) : 0) : r.below(total + 1) & ~63u;
+                        if (cut > total)
+                                cut = total;
+                        cuts.push_back(cut);
+                }
+                std::sort(cuts.begin(), cuts.end());
+                uint32_t prev = 0;
+                for (auto c : cuts) {
+                        st.segs.push_back(c - prev);
+                        prev = c;
+                }
+                st.segs.push_back(total - prev);
+                p.streams.push_back(st);
+                // ops needed: GCM: INIT + k UPDATE + COMPLETE; ChaCha: INIT(seg0) + (k-1) UPDATE + COMPLETE
+                remaining.push_back((uint32_t) st.segs.size() + 2);
+        }
+        // other traffic interleaved between the segments of the streams (also SGL_ALL jobs)
+        std::vector<Suite> others;
+        for (int i = 0; i < 3; i++)
+                others.push_back(gen_suite(r, -1));
+        bool left = true;
+        while (left) {
+                left = false;
+                for (uint32_t i = 0; i < nstreams; i++)
+                        if (remaining[i])
+                                left = true;
+                if (!left)
+                        break;
+                uint32_t x = r.below(100);
+                Op op;
+                if (x < 55) {
+                        uint32_t i = r.below(nstreams);
+                        if (!remaining[i])
+                                continue;
+                        remaining[i]--;
+                        op.kind = OP_SGL_SEG;
+                        op.a = (int) i;
+                } else if (x < 80) {
+                        op.kind = OP_SUBMIT;
+                        op.jobs.push_back(gen_job(r, r.pick(others), go));
+                } else if (x < 90) {
+                        // SGL_ALL job with its own segment list
+                        Suite s;
+                        s.cipher = r.chance(0.5) ? IMB_CIPHER_GCM_SGL : IMB_CIPHER_CHACHA20_POLY1305_SGL;
+                        s.hash = (uint8_t) aead_hash_for(s.cipher);
+                        s.key_len = s.cipher == IMB_CIPHER_GCM_SGL ? (uint16_t) r.pick(cipher_key_lens(IMB_CIPHER_GCM)) : 32;
+                        s.dir = r.chance(0.5) ? IMB_DIR_ENCRYPT : IMB_DIR_DECRYPT;
+                        s.order = s.dir == IMB_DIR_ENCRYPT ? IMB_ORDER_CIPHER_HASH : IMB_ORDER_HASH_CIPHER;
+                        JobSpec j = gen_job(r, s, go);
+                        j.sgl_state = IMB_SGL_ALL;
+                        uint32_t k = r.range(0, 6);
+                        for (uint32_t c = 0; c < k; c++)
+                                j.cuts.push_back(r.below(j.c_len + 1));
+                        std::sort(j.cuts.begin(), j.cuts.end());
+                        op.kind = OP_SUBMIT;
+                        op.jobs.push_back(j);
+                } else if (x < 95)
+                        op.kind = OP_FLUSH;
+                else
+                        op.kind = OP_GET_COMPLETED;
+                p.ops.push_back(op);
+        }
+        return p;
+}
+
+// ------------------------------------------------------------------ C11: key preparation helpers inside ordinary traffic
+Plan
+gen_plan_keyprep(const ProfileCfg &pc, uint64_t run_seed)
+{
+        Plan p = gen_plan(pc, run_seed);
+        Rng r(run_seed ^ 0xC11C11);
+        // sprinkle helper calls between the ops (also while jobs are parked)
+        std::vector<Op> out;
+        for (size_t i = 0; i <= p.ops.size(); i++) {
+                uint32_t k = r.below(4);
+                for (uint32_t q = 0; q < k; q++) {
+                        Op op;
+                        op.kind = OP_KEYPREP;
+                        op.task = 0;
+                        op.a = (int) r.range(1, 8);
+                        uint32_t x = r.below(10);
+                        op.b = x < 6 ? 0 : x < 7 ? 1 : x < 8 ? 2 : 3; // random / all-zero / all-one / single-bit keys
+                        JobSpec j;
+                        j.seed = r.next();
+                        j.key_seed = r.next();
+                        static const uint16_t kls[] = { 16, 24, 32 };
+                        j.key_len = kls[r.below(3)];
+                        uint32_t y = r.below(10);
+                        j.hkey_len = (uint8_t) (y < 1 ? 0 : y < 5 ? r.range(1, 64) : y < 7 ? r.range(63, 66) : y < 9 ? r.range(65, 130) : r.range(127, 160));
+                        op.jobs.push_back(j);
+                        out.push_back(op);
+                }
+                if (i < p.ops.size())
+                        out.push_back(p.ops[i]);
+        }
+        p.ops = out;
         return p;
 }
